@@ -89,10 +89,11 @@ def Pulse.isclose (t : Tol) (a b : Pulse) : Bool :=
   && closeQ t (qsumL a.proportions) (qsumL b.proportions)
   && iscloseDemeProportions defaultTol a.sources a.proportions b.sources b.proportions
 
-/-- `Deme.assert_close`: epochs are compared through `zip` -/
+/-- `Deme.assert_close`: equal numbers of epochs, compared pairwise -/
 def Deme.isclose (t : Tol) (a b : Deme) : Bool :=
   a.name == b.name && closeE t a.startTime b.startTime
   && iscloseDemeProportions t a.ancestors a.proportions b.ancestors b.proportions
+  && a.epochs.length == b.epochs.length
   && (a.epochs.zip b.epochs).all (fun (x, y) => Epoch.isclose t x y)
 
 /-- `Graph.assert_close` / `Graph.isclose` -/
